@@ -1042,6 +1042,11 @@ func encodeTextSTL(i string) (o []byte) {
 		if v, ok := stlUnicodeMapping.GetInverse(string(c)); ok {
 			o = append(o, v.(byte))
 		} else if v, ok := stlUnicodeDiacritic.GetInverse(string(c)); ok {
+			// A diacritic without a letter to apply to is a standalone diacritic
+			if len(o) == 0 {
+				o = append(o, v.(byte), ' ')
+				continue
+			}
 			o = append(o[:len(o)-1], v.(byte), o[len(o)-1])
 		} else {
 			o = append(o, byte(c))
